@@ -99,7 +99,17 @@ func checkGesvd(c kase) *vk.Failure {
 	if mn > 0 {
 		minL = max(3*mn+max(m, n), 5*mn)
 	}
-	lwork, query, f := withWork(c, rng, minL, call, a, u, vt, s)
+	// LW == 4 probes the neighbourhood of the workspace thresholds that select
+	// the "fast" variants of paths 2-9 (k*k + max(4k, 5k) and k*k + max(m+n, 5k)
+	// with k = min(m,n)).
+	pick := func(minL, query int) int {
+		t := mn*mn + 5*mn
+		if c.K&1 != 0 {
+			t = mn*mn + max(m+n, 5*mn)
+		}
+		return t + c.K/2 - mn
+	}
+	lwork, query, f := withWorkP(c, rng, minL, false, pick, call, a, u, vt, s)
 	if f != nil {
 		if f.Key == "valid-call-panics" && n == 1 && anyPad(c.Pad, 3) && strings.Contains(f.Msg, "slice bounds out of range") {
 			// known finding: the m >= mnthr paths slice a[lda:] / vt[ldvt:]
@@ -227,7 +237,10 @@ func drawGesvd(t *rapid.T) kase {
 	}
 	c.M, c.N = drawShape(t, hi)
 	c.Pad = drawPads(t, 3)
-	c.LW = drawLW(t)
+	c.LW = rapid.SampledFrom([]int{0, 0, 1, 1, 2, 2, 3, 4, 4}).Draw(t, "lw")
+	if c.LW == 4 {
+		c.K = rapid.IntRange(0, 2*(min(c.M, c.N)+3)).Draw(t, "lwdelta")
+	}
 	c.Cls = rapid.IntRange(0, numRectCls-1).Draw(t, "cls")
 	c.Sc = rapid.SampledFrom([]int{0, 0, 0, 0, 500, -500}).Draw(t, "sc")
 	c.Wrap = rapid.IntRange(0, 4).Draw(t, "wrap") == 0
